@@ -213,6 +213,11 @@ impl Lex {
                             self.take_char();
                             self.tmp.pop();
                         }
+                        Some('o') => {
+                            radix = Some(8);
+                            self.take_char();
+                            self.tmp.pop();
+                        }
                         _ => ()
                     }
                 }
